@@ -320,7 +320,19 @@ func genKeyText(r *vlib.R) string {
 	if r.Chance(1, 6) {
 		n = r.Intn(700)
 	}
-	s := b64(r.Bytes(n))
+	raw := r.Bytes(n)
+	if r.Chance(1, 4) {
+		// extreme sums: every carry out of the low 16 bits happens, and the running total sits
+		// next to a 2^16 boundary at each chunk end
+		pat := vlib.Pick(r, [][]byte{{0xff}, {0xff, 0xff, 0xff, 0xfe}, {0xff, 0x00}, {0x00, 0xff}, {0x80, 0x00}, {0}})
+		for i := range raw {
+			raw[i] = pat[i%len(pat)]
+		}
+		if n > 0 && r.Bool() {
+			raw[r.Intn(n)] = byte(r.U64())
+		}
+	}
+	s := b64(raw)
 	switch r.Intn(10) {
 	case 0, 1, 2:
 		return wrap(r, s)
@@ -366,11 +378,46 @@ func (w *world) genKeyTag() {
 			if r.Chance(1, 3) {
 				pk = wrap(r, pk)
 			}
+		case 2, 3:
+			pk = b64(carryKey(r, flags, proto, alg))
 		default:
 			pk = genKeyText(r)
 		}
 		w.out(fmt.Sprintf("kt tag %d %d %d %s", flags, proto, alg, hexStr(pk)))
 	}
+}
+
+// carryKey builds key material whose running Appendix B sum, at the end of
+// a 192-octet decode chunk, has its low 16 bits just below 2^16 and carries
+// pending above them: any mishandling of the carry at a chunk boundary
+// (dropped, folded early, folded twice) changes the tag.
+func carryKey(r *vlib.R, flags, proto, alg int) []byte {
+	chunks := 1 + r.Intn(3)
+	key := r.Bytes(192 * chunks)
+	if r.Bool() {
+		for i := range key {
+			key[i] = 0xff
+		}
+	}
+	ac := uint64(flags>>8)<<8 + uint64(flags&0xff) + uint64(proto)<<8 + uint64(alg)
+	for i, b := range key[:len(key)-2] {
+		if i&1 == 0 {
+			ac += uint64(b) << 8
+		} else {
+			ac += uint64(b)
+		}
+	}
+	hi := ac >> 16
+	want := uint64(0xFFFF) - uint64(r.Intn(int(hi)+1))/2 // low half lands in [0xFFFF-hi/2, 0xFFFF]
+	delta := (want - ac) & 0xFFFF
+	key[len(key)-2], key[len(key)-1] = byte(delta>>8), byte(delta)
+	tail := r.Bytes(r.Intn(6))
+	if r.Bool() {
+		for i := range tail {
+			tail[i] = 0
+		}
+	}
+	return append(key, tail...)
 }
 
 func (w *world) genOversized() {
@@ -390,7 +437,7 @@ func (w *world) genOversized() {
 			at := r.Intn(limit)
 			s = fill(at) + vlib.Pick(r, []string{"\n", "\r"}) + fill(m-at)
 		case 3: // breaks only after the head
-			s = fill(limit+1) + strings.Repeat("\n", r.Intn(50))
+			s = fill(limit+r.Intn(2)) + strings.Repeat("\n", 1+r.Intn(50))
 		case 4: // nothing but line breaks
 			s = strings.Repeat("\r\n", limit)
 		case 5: // material limit+1 reached late
@@ -784,7 +831,7 @@ func (w *world) genBind() {
 	zoneL := genLabels(r, 0, 2, r.Chance(4, 5))
 	ownerL := append(genLabels(r, 0, 2, r.Chance(4, 5)), zoneL...)
 	zone, owner := pres(joinWireName(zoneL)), pres(joinWireName(ownerL))
-	for i := 2 + r.Intn(4); i > 0; i-- {
+	for which := -2; which < 18; which++ { // every clause of the preflight once per group, plus two clean ones
 		alg := 15
 		if r.Chance(1, 6) {
 			alg = vlib.Pick(r, []int{0, 99, 255, 3})
@@ -795,7 +842,7 @@ func (w *world) genBind() {
 			Labels: uint8(len(ownerL)), OrigTtl: 60, Expiration: 3500000000, Inception: 1000000000, SignerName: recaseStr(r, zone), Signature: b64(r.Bytes(64))}
 		setName, setClass, setType := owner, 1, 1
 		extra := ""
-		switch r.Intn(22) {
+		switch which {
 		case 0:
 			k.Protocol = uint8(vlib.Pick(r, []int{0, 2, 4, 255}))
 		case 1:
@@ -923,10 +970,18 @@ func (w *world) baseCase(s *signer) (vcase, []byte, bool) {
 	pk := s.pub
 	kb, _ := stdDecode(pk)
 	flags := uint16(vlib.Pick(r, []int{256, 257, 256 | 128}))
+	proto := uint8(3)
+	// a correctly signed RRset under a key that is not a zone key / not protocol 3:
+	// the signature is mathematically fine, the key must not be used
+	if r.Chance(1, 12) {
+		flags = uint16(vlib.Pick(r, []int{0, 1, 128, 0xFEFF}))
+	} else if r.Chance(1, 12) {
+		proto = uint8(vlib.Pick(r, []int{0, 2, 4, 255}))
+	}
 	k := &dns.DNSKEY{Hdr: dns.RR_Header{Name: pres(joinWireName(recaseLabels(r, zoneL))), Rrtype: dns.TypeDNSKEY, Class: rrs[0].class, Ttl: 300},
-		Flags: flags, Protocol: 3, Algorithm: alg, PublicKey: pk}
+		Flags: flags, Protocol: proto, Algorithm: alg, PublicKey: pk}
 	sf := sigFields{typeCovered: typ, alg: alg, labels: uint8(labels), origTTL: vlib.Pick(r, []uint32{0, 60, 3600, 86400, uint32(r.U64())}),
-		exp: 3500000000, inc: 1000000000, keyTag: refKeyTag(flags, 3, alg, kb)}
+		exp: 3500000000, inc: 1000000000, keyTag: refKeyTag(flags, proto, alg, kb)}
 	// sign the RFC form of the *signed* owner (for a wildcard: "*.ce")
 	signedSet := make([]wireRR, len(rrs))
 	for i, rr := range rrs {
@@ -1188,9 +1243,9 @@ func gen(r *vlib.R, n int, tier string, emit func(string)) {
 			w.genRSARaw()
 		case k < 62:
 			w.genRSAVerify()
-		case k < 72:
+		case k < 73:
 			w.genSignedData()
-		case k < 80:
+		case k < 76:
 			w.genBind()
 		default:
 			w.genVerify()
